@@ -63,3 +63,10 @@ func verifHarnessImportsOrder(n int) {
 
 // astImportSpec avoids importing go/ast twice in harness files.
 type astImportSpec = goast.ImportSpec
+
+// verifHarnessMigrateFiles drives the real Migrator.MigrateFiles with the
+// loader, the pattern extraction, the transformation, the printer and
+// os.WriteFile stubbed.
+func verifHarnessMigrateFiles() error {
+	return NewMigrator().MigrateFiles([]string{"./..."}, "kessoku.go")
+}
